@@ -160,10 +160,10 @@ func (in *Interp) binop(op token.Token, xt types.Type, x, y Value, pos token.Pos
 			return in.fit(Mul(a, b), resT, pos)
 		case token.QUO:
 			in.divCheck(b, pos)
-			return in.fit(QuoTrunc(a, b), resT, pos)
+			return in.fit(in.E.DivTrunc(a, b), resT, pos)
 		case token.REM:
 			in.divCheck(b, pos)
-			return RemTrunc(a, b)
+			return Sub(a, Mul(b, in.E.DivTrunc(a, b)))
 		case token.EQL:
 			return Eq(a, b)
 		case token.NEQ:
@@ -301,12 +301,19 @@ func (in *Interp) equals(t types.Type, x, y Value, pos token.Pos) *Term {
 	case *Value:
 		b, _ := y.(*Value)
 		return BoolConst(a == b)
+	case MaybeNil:
+		if b, ok := y.(Slice); ok && b.V == nil {
+			return a.Nil
+		}
 	case Slice:
 		// only comparison with nil is legal
 		if b, ok := y.(Slice); ok && b.V == nil {
 			return BoolConst(a.V == nil)
 		}
 		if a.V == nil {
+			if m, ok := y.(MaybeNil); ok {
+				return m.Nil
+			}
 			return BoolConst(y.(Slice).V == nil)
 		}
 	case *Map:
